@@ -386,7 +386,7 @@ func c30Devs(lines []string, withTok bool) []c30Dev {
 			has = has || c30IsFamily(l, f)
 		}
 		if has {
-			out = append(out, c30Dev{Op: "fdel", I: len(lines), Fam: f}, c30Dev{Op: "fren", I: len(lines), Fam: f})
+			out = append(out, c30Dev{Op: "fdel", I: -1, Fam: f}, c30Dev{Op: "fren", I: -1, Fam: f})
 		}
 	}
 	for i := range lines {
@@ -484,14 +484,13 @@ func c30Apply(lines []string, d c30Dev) []string {
 }
 
 // c30ApplyAll applies deviations (each addressed in the coordinates of the seed) from the
-// highest line index down, so that the addresses of the remaining ones stay valid.
+// highest line index down, so that the addresses of the remaining ones stay valid; the family
+// operators, which have no address, are applied last.
 func c30ApplyAll(lines []string, devs []c30Dev) string {
 	ds := append([]c30Dev{}, devs...)
 	sort.SliceStable(ds, func(i, j int) bool { return ds[i].I > ds[j].I })
-	for _, d := range ds {
-		if d.I < len(lines) || d.Op == "fdel" || d.Op == "fren" {
-			lines = c30Apply(lines, d)
-		}
+	for _, d := range ds { // the address-free family operators (I = -1) come last
+		lines = c30Apply(lines, d)
 	}
 	if len(lines) == 0 {
 		return ""
@@ -1737,6 +1736,7 @@ func TestVerifC30(t *testing.T) { //nolint:cyclop
 	if p.fail != "" {
 		vkit.Fatalf(t, "%s", p.fail)
 	}
+	c.Set("process_crashes", len(crashList))
 	sort.Slice(resList, func(i, j int) bool { return resList[i].idx < resList[j].idx })
 	sort.Slice(crashList, func(i, j int) bool { return crashList[i].idx < crashList[j].idx })
 	samples := 0
